@@ -173,12 +173,19 @@ def run_one(hdirs, case, attribute_re, idx, prop):
                                        case.timeout, out.stdout[-600:])))
             return out
         break
+    early = []
     for line in out.stdout.splitlines():
         if line.startswith("@@RESULT "):
             try:
                 out.result = json.loads(line[9:])
             except ValueError as e:
                 out.inconclusive.append("unparsable result line: %s" % e)
+        elif line.startswith("@@VIOLATION "):
+            try:
+                v = json.loads(line[12:])
+                early.append((v["key"], v["detail"] + " (reported before the process ended)"))
+            except ValueError:
+                pass
         elif line.startswith("@@"):
             out.extra_lines.append(line)
     # sanitizer logs
@@ -212,6 +219,8 @@ def run_one(hdirs, case, attribute_re, idx, prop):
         if out.result is None or out.rc < 0 or out.rc > 2:
             out.violations.append(("%s:crash:%s:%s" % (prop, case.cls, signame(out.rc)),
                                    "exit=%s stderr tail: %s" % (out.rc, out.stderr[-1500:])))
+    if out.result is None:
+        out.violations.extend(early)
     if out.result is not None:
         for v in out.result.get("violations", []):
             out.violations.append((v["key"], "%s (x%d)" % (v["detail"], v.get("count", 1))))
